@@ -20,6 +20,11 @@ CHECKS = {
             'RAISE observer of raise sites',
             'Held on the executions produced: no exception other than InvalidSpec escaped, every InvalidSpec had a '
             'message and an input path, CLI answered exit 1 with path:line: error.', '4 C03'),
+    'C11': ('runtime monitoring: differential observation of the real frontend and all 14 backend configurations '
+            'under layout transformations of the same model (files, order, splits, inline definitions, '
+            'comments/whitespace, continuations) and stdin delivery through stone.cli.main',
+            'Held on the executions produced: canonical Api dump and every output byte (or raised exception) '
+            'equal to the reference layout for every variant explored.', '4 C11'),
 }
 
 PENDING = {}
